@@ -41,6 +41,15 @@ INPLACE_FAMILY = {
     "C11": ("InteractingNetworks",),
     "C09": FAMILY["C09"],
     "C12": ("Grid", "GeoGrid", "GeoNetwork", "SpatialNetwork", "ClimateNetwork"),
+    "C13": ("ClimateData", "Data"),
+    "C10": ("CouplingAnalysis", "ClimateNetwork", "TsonisClimateNetwork", "SpearmanClimateNetwork", "MutualInfoClimateNetwork",
+            "PartialCorrelationClimateNetwork"),
+    # (Surrogates is left to C06, where its in-place normalisation of the caller's array is a recorded finding)
+    "C15": ("RecurrencePlot",),
+    "C16": ("EventSeries", "EventSeriesClimateNetwork"),
+    "C07": ("RecurrencePlot", "CrossRecurrencePlot", "JointRecurrencePlot", "RecurrenceNetwork", "JointRecurrenceNetwork",
+            "InterSystemRecurrenceNetwork"),
+    "C08": ("RecurrencePlot", "CrossRecurrencePlot", "JointRecurrencePlot"),
     "C18": ("ResNetwork",),
 }
 
@@ -234,6 +243,22 @@ def restore_vc(method_node, alias):
                     events += 1
                     continue
                 return "undecided", f"unrecognised in-place store at line {st.lineno}"
+        if isinstance(st, ast.Expr) and isinstance(st.value, ast.Call):
+            # in-place operations with data-dependent effect on the array (or a view of it): an arbitrary edit
+            cl = st.value
+            root = cl.args[0] if cl.args else None
+            while isinstance(root, (ast.Subscript, ast.Attribute)):
+                root = root.value
+            recv = cl.func.value if isinstance(cl.func, ast.Attribute) else None
+            while isinstance(recv, (ast.Subscript, ast.Attribute)):
+                recv = recv.value
+            if (_dotted(cl.func) in ("random.shuffle", "np.random.shuffle", "rd.shuffle", "np.put", "np.place", "np.copyto", "np.putmask")
+                    and isinstance(root, ast.Name) and root.id == alias) or \
+                    (isinstance(cl.func, ast.Attribute) and cl.func.attr in ("sort", "fill", "partition", "resize")
+                     and isinstance(recv, ast.Name) and recv.id == alias):
+                cur = (lambda ev: (lambda x, y: z3.Real(f"edit{ev}")))(events)
+                events += 1
+                continue
         if isinstance(st, ast.Expr) and isinstance(st.value, ast.Call) and _dotted(st.value.func) == "np.fill_diagonal" \
                 and st.value.args and isinstance(st.value.args[0], ast.Name) and st.value.args[0].id == alias:
             v = st.value.args[1]
@@ -297,9 +322,14 @@ def inplace_obligations():
                     # find the local alias in THIS method (not inherited callee) bound to self.<m>()
                     m = tgt.split(":", 1)[1]
                     alias = None
+                    from pvc.frame import MAY_ALIAS_FUNCS
                     for n in ast.walk(mi.node):
-                        if isinstance(n, ast.Assign) and isinstance(n.value, ast.Call) and isinstance(n.value.func, ast.Attribute) \
-                                and _dotted(n.value.func) == "self." + m and isinstance(n.targets[0], ast.Name):
+                        if not (isinstance(n, ast.Assign) and isinstance(n.value, ast.Call) and isinstance(n.targets[0], ast.Name)):
+                            continue
+                        v = n.value
+                        if _dotted(v.func) in MAY_ALIAS_FUNCS and v.args and isinstance(v.args[0], ast.Call):
+                            v = v.args[0]           # x = np.asarray(self.m(), ...): x may be the memoised array itself
+                        if isinstance(v.func, ast.Attribute) and _dotted(v.func) == "self." + m:
                             alias = n.targets[0].id
                     if alias is None:
                         notes.append(f"{tgt}: edited by a callee (covered there)")
